@@ -182,10 +182,10 @@ fn to_py(core: &Core, ind: usize) -> String {
         Core::Block { statements } => newline_delimited(statements, ind),
 
         Core::PropertyCall { object, property } => {
-            format!("{}.{}", to_py(object, ind), to_py(property, ind))
+            format!("{}.{}", operand(object, 16, ind), to_py(property, ind))
         }
         Core::FunctionCall { function, args } => {
-            format!("{}({})", to_py(function, ind), comma_delimited(args, ind))
+            format!("{}({})", operand(function, 16, ind), comma_delimited(args, ind))
         }
 
         Core::DictComprehension {
@@ -207,7 +207,7 @@ fn to_py(core: &Core, ind: usize) -> String {
             col,
             conds,
         } => {
-            let conds: Vec<String> = conds.iter().map(|cond| to_py(cond, ind)).collect();
+            let conds: Vec<String> = conds.iter().map(|cond| operand(cond, 3, ind)).collect();
             format!(
                 "{{{}: {} for {} if {}}}",
                 to_py(from, ind),
@@ -220,7 +220,7 @@ fn to_py(core: &Core, ind: usize) -> String {
             format!("{} for {}", to_py(expr, ind), to_py(col, ind))
         }
         Core::Comprehension { expr, col, conds } => {
-            let conds: Vec<String> = conds.iter().map(|cond| to_py(cond, ind)).collect();
+            let conds: Vec<String> = conds.iter().map(|cond| operand(cond, 3, ind)).collect();
             format!(
                 "{} for {} if {}",
                 to_py(expr, ind),
@@ -255,78 +255,18 @@ fn to_py(core: &Core, ind: usize) -> String {
 
         Core::UnderScore => String::from("_"),
 
-        Core::Ge { left, right } => {
-            format!(
-                "{} > {}",
-                to_py(left.as_ref(), ind),
-                to_py(right.as_ref(), ind)
-            )
-        }
-        Core::Geq { left, right } => {
-            format!(
-                "{} >= {}",
-                to_py(left.as_ref(), ind),
-                to_py(right.as_ref(), ind)
-            )
-        }
-        Core::Le { left, right } => {
-            format!(
-                "{} < {}",
-                to_py(left.as_ref(), ind),
-                to_py(right.as_ref(), ind)
-            )
-        }
-        Core::Leq { left, right } => {
-            format!(
-                "{} <= {}",
-                to_py(left.as_ref(), ind),
-                to_py(right.as_ref(), ind)
-            )
-        }
+        Core::Ge { left, right } => binary(left, ">", right, (6, 6), ind),
+        Core::Geq { left, right } => binary(left, ">=", right, (6, 6), ind),
+        Core::Le { left, right } => binary(left, "<", right, (6, 6), ind),
+        Core::Leq { left, right } => binary(left, "<=", right, (6, 6), ind),
 
-        Core::Not { expr } => format!("not {}", to_py(expr.as_ref(), ind)),
-        Core::And { left, right } => {
-            format!(
-                "{} and {}",
-                to_py(left.as_ref(), ind),
-                to_py(right.as_ref(), ind)
-            )
-        }
-        Core::Or { left, right } => {
-            format!(
-                "{} or {}",
-                to_py(left.as_ref(), ind),
-                to_py(right.as_ref(), ind)
-            )
-        }
-        Core::Is { left, right } => {
-            format!(
-                "{} is {}",
-                to_py(left.as_ref(), ind),
-                to_py(right.as_ref(), ind)
-            )
-        }
-        Core::IsN { left, right } => {
-            format!(
-                "{} is not {}",
-                to_py(left.as_ref(), ind),
-                to_py(right.as_ref(), ind)
-            )
-        }
-        Core::Eq { left, right } => {
-            format!(
-                "{} == {}",
-                to_py(left.as_ref(), ind),
-                to_py(right.as_ref(), ind)
-            )
-        }
-        Core::Neq { left, right } => {
-            format!(
-                "{} != {}",
-                to_py(left.as_ref(), ind),
-                to_py(right.as_ref(), ind)
-            )
-        }
+        Core::Not { expr } => format!("not {}", operand(expr, 4, ind)),
+        Core::And { left, right } => binary(left, "and", right, (3, 3), ind),
+        Core::Or { left, right } => binary(left, "or", right, (2, 2), ind),
+        Core::Is { left, right } => binary(left, "is", right, (6, 6), ind),
+        Core::IsN { left, right } => binary(left, "is not", right, (6, 6), ind),
+        Core::Eq { left, right } => binary(left, "==", right, (6, 6), ind),
+        Core::Neq { left, right } => binary(left, "!=", right, (6, 6), ind),
         Core::IsA { left, right } => {
             format!(
                 "isinstance({},{})",
@@ -335,95 +275,23 @@ fn to_py(core: &Core, ind: usize) -> String {
             )
         }
 
-        Core::AddU { expr } => format!("+{}", to_py(expr, ind)),
-        Core::Add { left, right } => {
-            format!(
-                "{} + {}",
-                to_py(left.as_ref(), ind),
-                to_py(right.as_ref(), ind)
-            )
-        }
-        Core::SubU { expr } => format!("-{}", to_py(expr, ind)),
-        Core::Sub { left, right } => {
-            format!(
-                "{} - {}",
-                to_py(left.as_ref(), ind),
-                to_py(right.as_ref(), ind)
-            )
-        }
-        Core::Mul { left, right } => {
-            format!(
-                "{} * {}",
-                to_py(left.as_ref(), ind),
-                to_py(right.as_ref(), ind)
-            )
-        }
-        Core::Div { left, right } => {
-            format!(
-                "{} / {}",
-                to_py(left.as_ref(), ind),
-                to_py(right.as_ref(), ind)
-            )
-        }
-        Core::FDiv { left, right } => {
-            format!(
-                "{} // {}",
-                to_py(left.as_ref(), ind),
-                to_py(right.as_ref(), ind)
-            )
-        }
-        Core::Pow { left, right } => {
-            format!(
-                "{} ** {}",
-                to_py(left.as_ref(), ind),
-                to_py(right.as_ref(), ind)
-            )
-        }
-        Core::Mod { left, right } => {
-            format!(
-                "{} % {}",
-                to_py(left.as_ref(), ind),
-                to_py(right.as_ref(), ind)
-            )
-        }
+        Core::AddU { expr } => format!("+{}", operand(expr, 12, ind)),
+        Core::Add { left, right } => binary(left, "+", right, (10, 11), ind),
+        Core::SubU { expr } => format!("-{}", operand(expr, 12, ind)),
+        Core::Sub { left, right } => binary(left, "-", right, (10, 11), ind),
+        Core::Mul { left, right } => binary(left, "*", right, (11, 12), ind),
+        Core::Div { left, right } => binary(left, "/", right, (11, 12), ind),
+        Core::FDiv { left, right } => binary(left, "//", right, (11, 12), ind),
+        Core::Pow { left, right } => binary(left, "**", right, (14, 12), ind),
+        Core::Mod { left, right } => binary(left, "%", right, (11, 12), ind),
         Core::Sqrt { expr } => format!("math.sqrt({})", to_py(expr.as_ref(), ind)),
 
-        Core::BAnd { left, right } => {
-            format!(
-                "{} & {}",
-                to_py(left.as_ref(), ind),
-                to_py(right.as_ref(), ind)
-            )
-        }
-        Core::BOr { left, right } => {
-            format!(
-                "{} | {}",
-                to_py(left.as_ref(), ind),
-                to_py(right.as_ref(), ind)
-            )
-        }
-        Core::BXOr { left, right } => {
-            format!(
-                "{} ^ {}",
-                to_py(left.as_ref(), ind),
-                to_py(right.as_ref(), ind)
-            )
-        }
-        Core::BOneCmpl { expr } => format!("~{}", to_py(expr, ind)),
-        Core::BLShift { left, right } => {
-            format!(
-                "{} << {}",
-                to_py(left.as_ref(), ind),
-                to_py(right.as_ref(), ind)
-            )
-        }
-        Core::BRShift { left, right } => {
-            format!(
-                "{} >> {}",
-                to_py(left.as_ref(), ind),
-                to_py(right.as_ref(), ind)
-            )
-        }
+        Core::BAnd { left, right } => binary(left, "&", right, (8, 9), ind),
+        Core::BOr { left, right } => binary(left, "|", right, (6, 7), ind),
+        Core::BXOr { left, right } => binary(left, "^", right, (7, 8), ind),
+        Core::BOneCmpl { expr } => format!("~{}", operand(expr, 12, ind)),
+        Core::BLShift { left, right } => binary(left, "<<", right, (9, 10), ind),
+        Core::BRShift { left, right } => binary(left, ">>", right, (9, 10), ind),
 
         Core::Return { expr } => format!("return {}", to_py(expr.as_ref(), ind)),
 
@@ -433,8 +301,8 @@ fn to_py(core: &Core, ind: usize) -> String {
             to_py(col.as_ref(), ind),
             newline_if_body(body, ind)
         ),
-        Core::In { left, right } => format! {"{} in {}", to_py(left, ind), to_py(right, ind)},
-        Core::Index { item, range } => format!("{}[{}]", to_py(item, ind), to_py(range, ind)),
+        Core::In { left, right } => binary(left, "in", right, (6, 6), ind),
+        Core::Index { item, range } => format!("{}[{}]", operand(item, 16, ind), to_py(range, ind)),
         Core::If { cond, then } => {
             format!(
                 "if {}:{}",
@@ -451,9 +319,9 @@ fn to_py(core: &Core, ind: usize) -> String {
         ),
         Core::Ternary { cond, then, el } => format!(
             "{} if {} else {}",
-            to_py(then.as_ref(), ind),
-            to_py(cond.as_ref(), ind + 1),
-            to_py(el.as_ref(), ind + 1)
+            operand(then, 2, ind),
+            operand(cond, 2, ind + 1),
+            operand(el, 1, ind + 1)
         ),
         Core::While { cond, body } => {
             format!(
@@ -529,6 +397,57 @@ fn to_py(core: &Core, ind: usize) -> String {
 
         Core::Raise { error } => format!("raise {}", to_py(error, ind)),
     }
+}
+
+/// Binding strength of an expression in Python, a higher value binds tighter.
+fn precedence(core: &Core) -> usize {
+    match core {
+        Core::AnonFun { .. } => 0,
+        Core::Ternary { .. } => 1,
+        Core::Or { .. } => 2,
+        Core::And { .. } => 3,
+        Core::Not { .. } => 4,
+        Core::Ge { .. }
+        | Core::Geq { .. }
+        | Core::Le { .. }
+        | Core::Leq { .. }
+        | Core::Is { .. }
+        | Core::IsN { .. }
+        | Core::Eq { .. }
+        | Core::Neq { .. }
+        | Core::In { .. } => 5,
+        Core::BOr { .. } => 6,
+        Core::BXOr { .. } => 7,
+        Core::BAnd { .. } => 8,
+        Core::BLShift { .. } | Core::BRShift { .. } => 9,
+        Core::Add { .. } | Core::Sub { .. } => 10,
+        Core::Mul { .. } | Core::Div { .. } | Core::FDiv { .. } | Core::Mod { .. } => 11,
+        Core::AddU { .. } | Core::SubU { .. } | Core::BOneCmpl { .. } => 12,
+        Core::Pow { .. } => 13,
+        // a literal with a sign or a fraction cannot directly be followed by `.` or `**`
+        Core::Int { int } if !int.chars().all(|c| c.is_ascii_digit()) => 12,
+        Core::Float { .. } | Core::Int { .. } => 15,
+        Core::TupleLiteral { .. } | Core::Comprehension { .. } | Core::KeyValue { .. } => 0,
+        _ => 16,
+    }
+}
+
+/// Write operand, between parentheses if it binds weaker than min.
+fn operand(core: &Core, min: usize, ind: usize) -> String {
+    if precedence(core) < min {
+        format!("({})", to_py(core, ind))
+    } else {
+        to_py(core, ind)
+    }
+}
+
+/// Write binary operation such that Python parses back the same operands.
+fn binary(left: &Core, op: &str, right: &Core, min: (usize, usize), ind: usize) -> String {
+    format!(
+        "{} {op} {}",
+        operand(left, min.0, ind),
+        operand(right, min.1, ind)
+    )
 }
 
 fn indent(amount: usize) -> String {
